@@ -2,6 +2,7 @@ import LdpcV.Driver.C17
 import LdpcV.Driver.C15
 import LdpcV.Driver.Dec
 import LdpcV.Driver.C04
+import LdpcV.Driver.C08
 open LdpcV
 
 def dispatch (line : String) : String :=
@@ -15,6 +16,7 @@ def dispatch (line : String) : String :=
   | "c03" :: rest => Driver.Dec.handleC03 rest out
   | "c04" :: rest => Driver.C04.handleC04 rest out
   | "c05" :: rest => Driver.C04.handleC05 rest out
+  | "c08" :: rest => Driver.C08.handle rest out
   | _ => "BADLINE unknown-tag"
 
 partial def loop (h : IO.FS.Stream) (o : IO.FS.Stream) : IO Unit := do
